@@ -307,7 +307,21 @@ impl<'e> Lower<'e> {
             o => Err(format!("lens form {}", o.to_token_stream().to_string().chars().take(40).collect::<String>())) }
     }
 
+    /// the statements of a block that are enabled in this configuration (`#[cfg(..)]` on let statements, expression statements and macros)
+    fn cfg_block(&self, b: &Block) -> Block {
+        let cfg = &self.walker.cfg;
+        let on = |s: &Stmt| -> bool { match s {
+            Stmt::Local(l) => cfg.enabled(&l.attrs),
+            Stmt::Macro(m) => cfg.enabled(&m.attrs),
+            Stmt::Expr(e, _) => cfg.enabled(expr_attrs(e)),
+            Stmt::Item(Item::Const(c)) => cfg.enabled(&c.attrs),
+            Stmt::Item(Item::Use(u)) => cfg.enabled(&u.attrs),
+            _ => true } };
+        Block { brace_token: b.brace_token, stmts: b.stmts.iter().filter(|s| on(s)).cloned().collect() }
+    }
+
     fn block(&mut self, b: &Block, expected: Option<&Ty>) -> R {
+        let fb = self.cfg_block(b); let b = &fb;
         self.locals.push(HashMap::new()); let saved = self.next;
         let mut stmts = vec![]; let mut tail: Option<(Ty, Ir)> = None; let n = b.stmts.len();
         for (i, s) in b.stmts.iter().enumerate() {
@@ -350,6 +364,7 @@ impl<'e> Lower<'e> {
         let mut v = V { name, this: self, found: None }; for s in rest { syn::visit::Visit::visit_stmt(&mut v, s); } v.found
     }
     fn stmt_block(&mut self, b: &Block) -> std::result::Result<Vec<St>, String> {
+        let fb = self.cfg_block(b); let b = &fb;
         self.locals.push(HashMap::new()); let saved = self.next; let mut stmts = vec![];
         for s in &b.stmts { match s {
             Stmt::Local(l) => { let init = l.init.as_ref().ok_or("let without init")?; let (t, e) = self.ex(&init.expr, None)?; self.bind_pat(&l.pat, &t, e, &mut stmts)?; }
@@ -706,4 +721,15 @@ fn ptr_cast_chain(e: &Expr) -> Option<(&Expr, &Type)> {
     let e = if let Expr::Paren(p) = e { &*p.expr } else { e };
     if let Expr::Cast(c2) = e { if let Type::Ptr(p2) = &*c2.ty { let inner = if let Expr::Paren(p) = &*c2.expr { &*p.expr } else { &*c2.expr }; if let Expr::Cast(c1) = inner { if let Type::Ptr(_) = &*c1.ty { return Some((&c1.expr, &p2.elem)); } } } }
     None
+}
+
+/// outer attributes of an expression (where `#[cfg(..)]` on an expression statement lives)
+pub fn expr_attrs(e: &Expr) -> &[Attribute] {
+    match e {
+        Expr::Array(x) => &x.attrs, Expr::Assign(x) => &x.attrs, Expr::Binary(x) => &x.attrs, Expr::Block(x) => &x.attrs, Expr::Call(x) => &x.attrs, Expr::Cast(x) => &x.attrs,
+        Expr::Field(x) => &x.attrs, Expr::ForLoop(x) => &x.attrs, Expr::If(x) => &x.attrs, Expr::Index(x) => &x.attrs, Expr::Lit(x) => &x.attrs, Expr::Macro(x) => &x.attrs,
+        Expr::Match(x) => &x.attrs, Expr::MethodCall(x) => &x.attrs, Expr::Paren(x) => &x.attrs, Expr::Path(x) => &x.attrs, Expr::Reference(x) => &x.attrs, Expr::Return(x) => &x.attrs,
+        Expr::Struct(x) => &x.attrs, Expr::Tuple(x) => &x.attrs, Expr::Unary(x) => &x.attrs, Expr::Unsafe(x) => &x.attrs, Expr::While(x) => &x.attrs, Expr::Loop(x) => &x.attrs,
+        Expr::Let(x) => &x.attrs, Expr::Repeat(x) => &x.attrs, Expr::Range(x) => &x.attrs, Expr::Group(x) => &x.attrs, Expr::Closure(x) => &x.attrs, Expr::Try(x) => &x.attrs,
+        _ => &[] }
 }
